@@ -81,6 +81,8 @@ def gen_case(rng, i):
             pt[v] = sg * B
             near = (v, [({v: sg}, round(B + k * u, 6)), ({v: -sg}, round(-(B - k * u), 6))])                 # B-ku <= sg*v <= B+ku
         else:
+            if abs(pt[v]) > B - k * u:
+                pt[v] = 0          # the planted point has to lie inside the pair
             near = (v, [({v: sg}, round(B + k * u, 6)), ({v: -sg}, round(B - k * u, 6))])                    # -(B-ku) <= sg*v <= B+ku
     a = [rrow(rng, inv, wild, pt) for _ in range(rng.randint(0, 2))]
     g = [rrow(rng, inv + outv, wild, pt) for _ in range(rng.randint(1, 3))]
